@@ -142,6 +142,20 @@ Theorem C14_fresh_initiation_rearms_retransmit : forall q i t d sh t1 ids j js T
 Proof. exact fresh_initiation_rearms_retransmit. Qed.
 Print Assumptions C14_fresh_initiation_rearms_retransmit.
 
+(* Second episode on the same peer after a give-up (no restart in between): new
+   traffic at t' starts a new attempt with the counter reset to 0, so its first
+   expiry retransmits (attempts 1) instead of giving up at once. *)
+Theorem C14_second_episode_after_giveup : forall i t g t' ids j j2,
+  t + RekeyTimeout <= t' -> jit_ok j ->
+  t' + RekeyTimeout + ms * fst j < g + RejectAfterTime * 3 ->
+  let r := step (gstate i t g) (mkev t' (ITun ids) j) in
+  let d := t' + RekeyTimeout + ms * fst j in
+  snd r = [OInit] /\ attempts (fst r) = 0 /\ next_due (fst r) = Some (TRetransmit, d) /\
+  snd (fire d (fst j2) (snd j2) TRetransmit (fst r)) = [OInit] /\
+  attempts (fst (fire d (fst j2) (snd j2) TRetransmit (fst r))) = 1.
+Proof. exact second_episode_after_giveup. Qed.
+Print Assumptions C14_second_episode_after_giveup.
+
 (* Data received at t on an established session and nothing sent since:
    exactly one keepalive, at t + 10 s. *)
 Theorem C14_keepalive_after_10s_receive_only : forall s k t id j js T fuel,
